@@ -212,6 +212,22 @@ def step (s : St) (toks : List String) : St × String :=
            (s, toString (Sif.Spec.C18.epochSharesOK pre ch))
          | _, _ => (s, "bad-op")
        | _, _ => (s, "bad-op"))
+  | "chk" :: "c18.l1elig" :: _tag :: lock :: height :: nch :: rest =>
+      (match parseNat lock, parseInt height, parseNat nch with
+       | some lock, some height, some nch =>
+         let chTok := rest.take (4 * nch)
+         let lrest := (rest.drop (4 * nch)).drop 1   -- skip "||"
+         let rec triples : List String → Option (List (String × String × Int))
+           | [] => some []
+           | a :: b :: c :: t => do
+               let h ← parseInt c
+               let r ← triples t
+               pure ((a, b, h) :: r)
+           | _ => none
+         match parseChanges chTok [], triples lrest with
+         | some ch, some lg => (s, toString (Sif.Spec.C18.eligibleByLedgerOK lock height ch lg))
+         | _, _ => (s, "bad-op")
+       | _, _, _ => (s, "bad-op"))
   | "chk" :: "c18.l1lppd" :: _tag :: nch :: rest =>
       (match parseNat nch with
        | some nch =>
